@@ -2,7 +2,7 @@
    Statements only; proofs in Proofs/ItsFacts.v. *)
 From Coq Require Import String List NArith Lia Bool.
 From Ax Require Import Lib.Bytes Lib.Mvx Lib.SolAbi Lib.Keccak Model.Check Model.Env Model.Gateway Model.TokenManager Model.Its
-     Proofs.GatewayMsgs Proofs.TMFacts Proofs.ItsFacts Proofs.ItsWorld Proofs.ItsMore Gen.Generated.
+     Proofs.GatewayMsgs Proofs.TMFacts Proofs.ItsFacts Proofs.ItsWorld Proofs.ItsMore Proofs.ItsConfig Gen.Generated.
 Import ListNotations.
 Open Scope N_scope.
 
@@ -52,11 +52,21 @@ Section C13.
   Qed.
   Theorem c13_trusted_owner_only : forall w c chain a w' ev, set_trusted_address w c chain a = Some (w', ev) -> ic_caller c = ic_owner c.
   Proof. exact set_trusted_owner_only. Qed.
+
+  (* ---- world level, every operation (Proofs/ItsConfig.v): the routes themselves are stable ----
+     the trusted-address table is changed by no operation of the world (all 25 kinds, asynchronous steps included)
+     other than setTrustedAddress / removeTrustedAddress called by the owner *)
+  Variable verify : bytes -> bytes -> bytes -> bool.
+  Theorem c13_trusted_table_owner_only : forall w o,
+    i_trusted (iw_its (fst (istep H verify w o))) <> i_trusted (iw_its w) ->
+    exists c, ic_caller c = ic_owner c /\ ((exists chain a, o = ISetTrusted c chain a) \/ (exists chain, o = IRemoveTrusted c chain)).
+  Proof. exact (trusted_changes_owner_only H verify). Qed.
 End C13.
 Print Assumptions c13_route_out.
 Print Assumptions c13_route_in.
 Print Assumptions c13_route_message.
 Print Assumptions c13_execute_requires_trusted.
+Print Assumptions c13_trusted_table_owner_only.
 Example pin_hub : gen_its_ITS_HUB_CHAIN_NAME = HUB_CHAIN /\ gen_its_ITS_HUB_ROUTING_IDENTIFIER = HUB_ID := conj eq_refl eq_refl.
 Example pin_msg_types : [gen_its_MESSAGE_TYPE_INTERCHAIN_TRANSFER; gen_its_MESSAGE_TYPE_DEPLOY_INTERCHAIN_TOKEN; gen_its_MESSAGE_TYPE_SEND_TO_HUB;
   gen_its_MESSAGE_TYPE_RECEIVE_FROM_HUB; gen_its_MESSAGE_TYPE_LINK_TOKEN; gen_its_MESSAGE_TYPE_REGISTER_TOKEN_METADATA]
